@@ -235,6 +235,13 @@ def heap_batch_invert(rep, cfg, path, n, S):
                             (base + r'(3mul|::mul)$', summar(2, lambda a, b: a * b)),
                             (base + r'(6square|::square)$', summar(1, lambda a: a * a)),
                             (r'(17montgomery_invert|::montgomery_invert)$', summar(1, lambda a: pow(a * Ri, -1, L_ORDER) * R if a % L_ORDER else 0))]
+            # comparisons of (possibly secret-derived) scalars: exact on constants, otherwise an unknown bit - only the data flow matters here
+            def sc_eq(it_, args, name, cnt=cnt):
+                bs = [[it_.ctx.resolve(it_.P(it_.load(Ptr(a.r, a.o + k), 1))) for k in range(32)] for a in args[-2:]]
+                if all(x.is_const() for b in bs for x in b): return Poly.const(1 if [x.cval() for x in bs[0]] == [x.cval() for x in bs[1]] else 0)
+                cnt[0] += 1
+                return it_.ctx.input("eq%d" % cnt[0], 0, 1)
+            it.intercept += [(r'^<curve25519_dalek::scalar::Scalar as core::cmp::PartialEq>::eq$', sc_eq), (r'^<curve25519_dalek::scalar::Scalar as subtle::ConstantTimeEq>::ct_eq$', sc_eq)]
             freed = []
             def on_dealloc(p, args, it=it, freed=freed):
                 Rg = it.regions[p.r]
